@@ -998,22 +998,26 @@ LEGACY = ["(CoerceH float)", "(CoerceH int)", "(CoerceH str)", "(CoerceH complex
           "(FunctionH 3)", "(EnumH (i 1) (s a))", "(MapH ((s yes) (i 1)))"]
 
 
-def random_trait(rng, depth, allow_legacy=True):
-    """Random trait term with nestings of Either / Tuple / Union / CompoundH."""
+def random_trait(rng, depth, allow_legacy=True, mapped=True):
+    """Random trait term with nestings of Either / Tuple / Union / CompoundH.
+    mapped=False leaves out Map / TraitMap members (a compound with a mapped
+    member is itself mapped: shadow attribute and post_setattr chain)."""
     if depth <= 0 or rng.random() < 0.25:
         pool = LEAVES + (LEGACY if allow_legacy else [])
+        if not mapped:
+            pool = [x for x in pool if not x.startswith(("(Map", "(MapH", "(PrefixMap"))]
         return rng.choice(pool)
     r = rng.random()
     n = rng.randint(2, 4) if r < 0.8 else rng.randint(1, 3)
     if r < 0.4:
-        alts = [random_trait(rng, depth - 1, allow_legacy) for _ in range(n)]
+        alts = [random_trait(rng, depth - 1, allow_legacy, mapped) for _ in range(n)]
         return "(Either %d %s)" % (1 if rng.random() < 0.3 else 0, " ".join(alts))
     if r < 0.6:
-        alts = [random_trait(rng, depth - 1, allow_legacy) for _ in range(n)]
+        alts = [random_trait(rng, depth - 1, allow_legacy, mapped) for _ in range(n)]
         return "(CompoundH %s)" % " ".join(alts)
     if r < 0.85:
-        return "(Tuple %s)" % " ".join(random_trait(rng, depth - 1, allow_legacy) for _ in range(n))
-    alts = [random_trait(rng, depth - 1, False) for _ in range(n)]
+        return "(Tuple %s)" % " ".join(random_trait(rng, depth - 1, allow_legacy, mapped) for _ in range(n))
+    alts = [random_trait(rng, depth - 1, False, mapped) for _ in range(n)]
     if rng.random() < 0.3:
         alts.insert(rng.randrange(len(alts) + 1), "NoneT")
     return "(Union %s)" % " ".join(alts)
